@@ -12,15 +12,50 @@ import (
 	"fmt"
 	"runtime"
 	"strings"
+	"sort"
 	"sync"
 	"time"
 
 	"github.com/cgi-fr/jsonline/pkg/jsonline"
 )
 
-func concProgram(t jsonline.Template, g int, iters int) string {
+// lockedWriter: a sink several goroutines may share — each Write call is atomic, as on a pipe, a file or a logger.
+type lockedWriter struct {
+	mu  sync.Mutex
+	buf bytes.Buffer
+}
+
+func (w *lockedWriter) Write(p []byte) (int, error) {
+	w.mu.Lock()
+	defer w.mu.Unlock()
+	return w.buf.Write(p)
+}
+
+func concProgram(t jsonline.Template, g int, iters int, shared jsonline.Row, sink *lockedWriter) string {
 	var sb strings.Builder
 	for i := 0; i < iters; i++ {
+		if i%4 == 1 && shared != nil {
+			// a row made from an INPUT ROW that every goroutine only reads, then filled in place: the input row is
+			// nobody's to write, and the rows made from it are each goroutine's own
+			if r, err := t.CreateRow(shared); err == nil {
+				_ = r.ImportAtKey("h", g*7907+i)
+				_ = r.ImportAtKey("c_plain", fmt.Sprintf("g%d-%d", g, i))
+				_ = r.ImportAtPath("d", time.Unix(1632518460+int64(g)*86400+int64(i)*61, 0).UTC().Format(time.RFC3339))
+				sb.WriteString(r.DebugString())
+			}
+		}
+		if i%5 == 2 && sink != nil {
+			// one's own exporter on a sink shared with the others, whose Write calls are atomic: a line of 4 KiB or
+			// more, or a short one, reaches it whole (checked on the sink afterwards)
+			row := t.CreateRowEmpty()
+			_ = row.ImportAtKey("a", g*1000+i)
+			pad := 10
+			if i%2 == 0 {
+				pad = 4090 + g*3 + i
+			}
+			row.Set("pad", strings.Repeat(string(rune('a'+g%26)), pad))
+			_ = t.GetExporter(sink).Export(row)
+		}
 		switch (g + i) % 8 {
 		case 7:
 			// in-place imports through dotted paths into what the template declared one and two levels down
@@ -152,6 +187,15 @@ func genC20(cw *caseWriter, seed uint64, tier string) {
 			_, _ = fi.ReadOne()
 		}
 		got := make([]string, n)
+		mkShared := func() jsonline.Row {
+			sr, _ := buildTemplate(append(append([]colDesc{}, cols...), colDesc{name: "c_plain", format: "string", ty: "none"})).CreateRow(map[string]interface{}{"h": "base", "d": "2021-09-24T21:21:00Z", "c_plain": "base", "a": 5})
+			return sr
+		}
+		shared, sink := mkShared(), &lockedWriter{}
+		sharedBefore := ""
+		if shared != nil {
+			sharedBefore = shared.DebugString()
+		}
 		var wg sync.WaitGroup
 		start := make(chan struct{})
 		for g := 0; g < n; g++ {
@@ -159,7 +203,7 @@ func genC20(cw *caseWriter, seed uint64, tier string) {
 			go func(g int) {
 				defer wg.Done()
 				<-start
-				if p := guard(func() { got[g] = concProgram(t, g, iters) }); p != "" {
+				if p := guard(func() { got[g] = concProgram(t, g, iters, shared, sink) }); p != "" {
 					got[g] = "PANIC " + p
 				}
 			}(g)
@@ -167,10 +211,11 @@ func genC20(cw *caseWriter, seed uint64, tier string) {
 		close(start)
 		wg.Wait()
 		ref := buildTemplate(cols)
+		seqShared, seqSink := mkShared(), &lockedWriter{}
 		seq := make([]string, n)
 		for g := 0; g < n; g++ {
 			gg := g
-			if p := guard(func() { seq[gg] = concProgram(ref, gg, iters) }); p != "" {
+			if p := guard(func() { seq[gg] = concProgram(ref, gg, iters, seqShared, seqSink) }); p != "" {
 				seq[gg] = "PANIC(sequential) " + p
 			}
 		}
@@ -179,6 +224,17 @@ func genC20(cw *caseWriter, seed uint64, tier string) {
 			if got[g] != seq[g] {
 				impl = fmt.Sprintf("differs goroutine=%d", g)
 				break
+			}
+		}
+		if impl == "same" && shared != nil && shared.DebugString() != sharedBefore {
+			impl = "differs: the input row every goroutine only read was written"
+		}
+		if impl == "same" {
+			a, b := strings.Split(sink.buf.String(), "\n"), strings.Split(seqSink.buf.String(), "\n")
+			sort.Strings(a)
+			sort.Strings(b)
+			if strings.Join(a, "\n") != strings.Join(b, "\n") {
+				impl = "differs: the lines on the shared sink are not the lines each goroutine exported"
 			}
 		}
 		cw.count(fmt.Sprintf("goroutines:%d", n))
